@@ -94,9 +94,10 @@ def _gen_query(rng, thr_pool):
     norm = rng.choice([None, None, "by_overall", "by_overall", "by_min", "by_min"])
     boot = None
     if rng.random() < 0.55:
-        sampler = rng.choice(["identity", "loo", "loo", "replacement", "replacement", "replacement"])
+        sampler = rng.choice(["identity", "loo", "loo", "replacement", "replacement", "replacement", "single_pass", "single_pass",
+                              "dynamic"])
         boot = {"method": rng.choice(["quantile", "bc", "bca"]), "sampler": sampler,
-                "strat": rng.choice([None, "by_label", "by_group"]) if sampler == "replacement" else None,
+                "strat": rng.choice([None, "by_label", "by_group"]) if sampler in ("replacement", "single_pass", "dynamic") else None,
                 "nb": 3 if sampler == "identity" else (rng.choice([4, 7]) if sampler == "loo" else 20),
                 "seed": rng.randint(0, 2**31 - 1), "alpha": rng.choice([0.05, 0.05, 0.1, 0.32, 0.5])}
     return {"metric": metric, "ts": ts, "tform": tform, "sc": sc, "ec": ec, "cfg_default": rng.random() < 0.3,
@@ -112,9 +113,11 @@ def gen_one(rng, i, tier):
     gcols, lcol, scol = names[:ncols], names[ncols], names[ncols + 1]
     keys = _gen_keys(rng, ncols)
     grid = rng.choice([4, 8])
-    skind = rng.choice(["grid", "grid", "float", "int"])
+    skind = rng.choice(["grid", "grid", "float", "int", "f4"])
 
     def score():
+        if skind == "f4":  # two-decimal scores held in a float32 column (values exactly representable as doubles)
+            return float(np.float32(rng.randint(0, 10) / 10))
         if skind == "grid":
             return rng.randint(0, grid) / grid
         if skind == "int":
@@ -139,12 +142,14 @@ def gen_one(rng, i, tier):
     thr_pool = [j / grid for j in range(0, grid + 1)] + [rng.random(), -0.5, 1.5]
     if skind == "int":
         thr_pool = [-2, -1, 0, 0.5, 1, 2, 3]
+    if skind == "f4":  # float64 thresholds next to the float32 score values: j/10 and its float32 rounding
+        thr_pool = [j / 10 for j in range(0, 11)] + [float(np.float32(j / 10)) for j in range(0, 11)] + [-0.5, 1.5]
     nq = 5 if tier == "quick" else 6
     return {"kind": "frame", "gcols": gcols, "lcol": lcol, "scol": scol,
             "as_list": ncols > 1 or rng.random() < 0.4, "rows": rows, "pos_label": pos_label,
             "pos_default": pos_label == 1 and rng.random() < 0.5,
             "index": rng.choice(["range", "range", "shuffled", "dup", "str"]),
-            "extra_col": rng.random() < 0.3,
+            "extra_col": rng.random() < 0.3, "sdtype": "f4" if skind == "f4" else None,
             "queries": [_gen_query(rng, thr_pool) for _ in range(nq)]}
 
 
@@ -265,12 +270,15 @@ def _boot_ci(theta, theta_hat, alpha, method):
 
 def _replicates(samples, G, ts, metric, sc, ec):
     """replicates (N, G, T) of the un-normalised group metric, computed from the recorded bootstrap
-    samples (arrays pos / neg / pos_groups / neg_groups and the group list); None if undecodable"""
+    samples (arrays pos / neg / pos_groups / neg_groups), group by group BY LABEL: the reference group list is that of
+    the first sample listing G groups; a sample in which a group has no row contributes NaN for it (whatever group
+    list the sample itself carries); None if no sample lists G groups"""
+    ref = next((list(s_.groups) for s_ in samples if len(getattr(s_, "groups", [])) == G), None)
+    if ref is None:
+        return None
     R = np.full((len(samples), G, len(ts)), np.nan)
     for a_, s_ in enumerate(samples):
-        if len(getattr(s_, "groups", [])) != G:
-            return None
-        for g_, gid in enumerate(s_.groups):
+        for g_, gid in enumerate(ref):
             pm = np.asarray(s_.pos_groups == gid, dtype=bool).reshape(-1) if len(s_.pos) else np.zeros(0, dtype=bool)
             nm_ = np.asarray(s_.neg_groups == gid, dtype=bool).reshape(-1) if len(s_.neg) else np.zeros(0, dtype=bool)
             sp = np.asarray(s_.pos, dtype=float)[pm]
@@ -403,7 +411,7 @@ def build(inp) -> Case:
     if inp.get("extra_col"):
         cols["unrelated"] = list(range(n))
     cols[lcol] = labels
-    cols[scol] = scores
+    cols[scol] = np.array(scores, dtype=np.float32) if inp.get("sdtype") == "f4" else scores
     if inp["index"] == "range":
         index = None
     elif inp["index"] == "shuffled":
@@ -471,7 +479,7 @@ def build(inp) -> Case:
             elif boot["sampler"] == "loo":
                 cfgb = BootstrapConfig(sampling_method=loo, nb_samples=boot["nb"], bootstrap_method=boot["method"])
             else:
-                cfgb = BootstrapConfig(sampling_method="replacement", nb_samples=boot["nb"],
+                cfgb = BootstrapConfig(sampling_method=boot["sampler"], nb_samples=boot["nb"],
                                        bootstrap_method=boot["method"], stratified_sampling=boot["strat"])
             kw["bootstrap_config"] = cfgb
             np.random.seed(boot["seed"])
